@@ -13,6 +13,7 @@ CONSTANTS
   MaxFail = 0
   MaxReq = 1
   MaxLook = 1
+  MaxLag = 1
   SharedTx = TRUE
   Boots = FALSE
   Profile = "reobs"
